@@ -224,7 +224,7 @@ def simplify(case):
         yield c
 
 
-LAWS = ["negative", "negative", "nonpos_ties", "nonpos_ties", "const", "ties", "noise", "peak", "large", "alternating", "neartie", "neartie"]
+LAWS = ["negative", "negative", "nonpos_ties", "nonpos_ties", "const", "ties", "noise", "peak", "large", "alternating", "neartie", "neartie", "neg_then_zero", "neg_then_zero"]
 NAMES = ["DOO", "DOO", "SOO", "SequOOL", "StoSOO", "StroquOOL", "POO", "GPO", "PCT", "VPCT"]
 
 
